@@ -30,7 +30,7 @@ def run(tier, seed):
         combos = [(conts[(i + j) % len(conts)], RI.STORAGES[(i + j) % 4], "str" if (i + j) % 3 else "num") for j in range(2 if quick else 6)]
         for (cont, skind, nk) in combos:
             nrep += 1
-            for (clause, detail) in RI.replay(rec, cont, skind, nk, zero=(nrep % 2 == 0), keywords=(nrep % 3 == 0)):
+            for (clause, detail) in RI.replay(rec, cont, skind, nk, zero=(nrep % 3), keywords=(nrep % 4 == 0)):
                 if clause == "replay.impute.not_followed":
                     ctx.skip("behaviours the imputer could not follow (different random primitives / number of draws)")
                     continue
